@@ -26,7 +26,7 @@ XML_NS = "http://www.w3.org/XML/1998/namespace"
 
 ALL_KINDS = [
     "prefix", "default", "decl_place", "unused_decl", "attrs", "ws", "comment", "pi", "comment_text", "pi_text",
-    "cdata", "charref", "encoding", "value_ws", "empty", "quote", "doctype", "xinclude", "bigpad",
+    "cdata", "charref", "encoding", "value_ws", "empty", "quote", "doctype", "xinclude", "xinclude_subdir", "bigpad",
 ]
 
 
@@ -94,20 +94,30 @@ def annotate(uni, tree, clazz="Root"):
         if meta.text is not None:
             info["qtext"] = is_q(meta.text)
             info["padtext"] = paddable(meta.text) and meta.text.init and not node["c"]
+        assigned = set()  # like ElementNode.assigned: a non-list element field takes one child only
         for i, ch in enumerate(node["c"]):
-            child(ch, path + (i,), meta, None)
+            child(ch, path + (i,), meta, None, assigned)
 
-    def child(ch, path, meta, wrapper):
+    def child(ch, path, meta, wrapper, assigned):
         q = ch["q"]
         if wrapper is None and q in meta.wrappers:
             ann[path] = {"elem_only": True, "qattrs": set(), "qtext": False, "padattrs": set(), "padtext": False, "wrapper": True}
             for j, g in enumerate(ch["c"]):
-                child(g, path + (j,), meta, q)
+                child(g, path + (j,), meta, q, assigned)
             return
-        cands = [v for v in meta.find_children(q) if wrapper is None or v.wrapper_qname == wrapper]
+        cands = []
+        for v in meta.find_children(q):
+            if wrapper is not None and v.wrapper_qname != wrapper:
+                continue
+            unique = 0 if (not v.is_element or v.list_element) else v.index
+            if unique and unique in assigned:
+                continue
+            cands.append(v)
         if not cands:
             return opaque(ch, path)
         var = cands[0]
+        if var.is_element and not var.list_element:
+            assigned.add(var.index)
         try:
             if var.clazz:
                 return walk_el(ch, path, ctx.fetch(var.clazz, meta.namespace, xsi_of(ch)))
@@ -365,22 +375,32 @@ def respell(tree, ann, rng, kinds):
         return "".join(out), "".join(cd)
 
     def chars(s, in_text_ok=True):
-        """character data with optional comments / PIs in the middle"""
+        """character data with optional runs of comments / PIs in front, in the middle and behind"""
         if s is None or s == "":
             return ""
-        cut = None
-        if in_text_ok and ("comment_text" in kinds or "pi_text" in kinds) and rng.random() < 0.5:
-            cut = rng.randint(0, len(s))
-        if cut is None:
+        allowed = [k for k in ("comment_text", "pi_text") if k in kinds]
+        if not (in_text_ok and allowed and rng.random() < 0.5):
             return esc_text(s, text_mode, rng, encodable)
-        which = rng.choice([k for k in ("comment_text", "pi_text") if k in kinds])
-        if which == "comment_text":
-            mid = "<!--t-->"
-            info["comment_in_text"] = True
-        else:
-            mid = "<?t x?>"
-            info["pi_in_text"] = True
-        return esc_text(s[:cut], text_mode, rng, encodable) + mid + esc_text(s[cut:], text_mode, rng, encodable)
+
+        def run():
+            out = []
+            for _ in range(rng.choice([1, 1, 2, 3])):   # adjacent nodes: each is the other's sibling
+                if rng.choice(allowed) == "comment_text":
+                    out.append("<!--t-->")
+                    info["comment_in_text"] = True
+                else:
+                    out.append("<?t x?>")
+                    info["pi_in_text"] = True
+            return "".join(out)
+
+        cuts = sorted({rng.randint(0, len(s)) for _ in range(rng.choice([1, 1, 2, 3]))})
+        parts, last = [], 0
+        for c in cuts:
+            parts.append(esc_text(s[last:c], text_mode, rng, encodable))
+            parts.append(run())
+            last = c
+        parts.append(esc_text(s[last:], text_mode, rng, encodable))
+        return "".join(parts)
 
     def pad(v):
         return rng.choice(PAD_CHOICES) * rng.randint(0, 1) + v + rng.choice(PAD_CHOICES) * rng.randint(0, 1)
@@ -529,7 +549,9 @@ def respell(tree, ann, rng, kinds):
             parts.append(rng.choice([" ", "\n"]))
 
         new_ns = [[p, u] for p, u in scope.items() if not (p is None and u == "")]
-        new_node = {"q": n["q"], "a": [[k, v] for _an, v, k in allitems if k is not None], "ns": new_ns, "t": nt, "c": [], "tl": n["tl"]}
+        new_node = {"q": n["q"], "a": [[k, v] for _an, v, k in allitems if k is not None], "ns": new_ns, "t": nt, "c": [], "tl": n["tl"],
+                    # the declarations written on this start tag, in document order ("" = the default namespace)
+                    "_d": [["" if an == "xmlns" else an[6:], v] for an, v, k in allitems if k is None]}
         new_parent_children.append(new_node)
 
         eligible = bool(a.get("elem_only")) and bool(n["c"]) and not (nt or "").strip()
@@ -549,7 +571,7 @@ def respell(tree, ann, rng, kinds):
                 cpath = path + (i,)
                 if cpath in inc_paths:
                     # the subtree goes to a file of its own, with its own declarations
-                    fname = "part%d.xml" % len(files)
+                    fname = ("sub/" if "xinclude_subdir" in kinds else "") + "part%d.xml" % len(files)
                     files[fname] = None
                     holder = []
                     files[fname] = emit(c, cpath, {}, False, holder)
@@ -564,6 +586,9 @@ def respell(tree, ann, rng, kinds):
                             inherit(g)
 
                     inherit(inc)
+                    if "/" in fname:
+                        # libxml2's XInclude (base URI fixup) adds xml:base to a root included from another directory
+                        inc["_xml_base"] = fname
                     new_node["c"].append(inc)
                     xi_decl = "" if scope.get("xi") == XI else ' xmlns:xi="%s"' % XI
                     sub = '<xi:include%s href="%s"/>' % (xi_decl, fname)
@@ -643,6 +668,14 @@ def respell(tree, ann, rng, kinds):
              for k, v in files.items()}
     info["encoding"] = enc
     info["default_uri"] = default_uri
+
+    def xtree(m):
+        return {"d": m.get("_d", []), "q": m["q"], "a": m["a"], "s": "passed", "t": m["t"] or None,
+                "c": [xtree(c) for c in m["c"]], "tl": m["tl"] or None}
+
+    # the infoset with the declarations where they are written (the model's `XTree`); a document split
+    # with XInclude has no single tree of declarations
+    info["xtree"] = None if files else xtree(new_tree)
     return data, files, new_tree, info
 
 
